@@ -159,6 +159,10 @@ class HeapExec(DynExec):
              'is_newline': SBool(self._b(self.contains(tt, W.T.Newline, st))),
              'normalized': SStr(F['normalized'](b, pos)), '__base__': seg['base'], '__pos__': pos}
         for k, v in uni.items():
+            if k == '__values_nonempty__':
+                # stated invariant of the segment: every element's value is non-empty (C01 for leaves, I3/I4 for groups)
+                st.assume(z3.Length(val.z) >= 1)
+                continue
             f[k] = v
         for k in st.ghost.get('__taint__', ()):
             # this field was written for some element in an earlier (abstract) loop iteration: value unknown
@@ -1082,6 +1086,16 @@ class HeapExec(DynExec):
                     vals.append(rr[0][1])
                 out.append((s, self.new_list(s, [('el', v) for v in vals])))
                 continue
+            if isinstance(it, Opaque) and it.name == 'sublists' and isinstance(g.target, ast.Name):
+                # [f(child) for child in node.get_sublists()] used for its effect on the children: the element
+                # expression is evaluated for an ARBITRARY group child (calls go through the callee's contract);
+                # the node's own list is not touched by work on a child's list (I1)
+                from contracts.sql import make_group
+                s2 = s.fork()
+                s2.env[g.target.id] = make_group(self, s2, 'child')
+                self.eval(node.elt, s2)        # obligations (call preconditions, sites) are generated here
+                out.append((s, Opaque('listcomp-result')))
+                continue
             if not isinstance(it, LRef):
                 raise OutsideSubset('list comprehension over %r' % (it,))
             body = [ast.Expr(value=node.elt)]
@@ -1098,6 +1112,11 @@ class HeapExec(DynExec):
 
     # ------------------------------------------------------------------ spec functions for contracts
     def spec_fn(self, name, args, kw, st):
+        if name == 'FRESH':
+            # the object was allocated by a constructor call executed in this activation (not a parameter's element,
+            # not an attribute of a class or module, not a value returned by an unverified callee)
+            v = args[0]
+            return [(st, bool(isinstance(v, Rec) and st.objs[v.oid].get('__fresh__') is True))]
         if name == 'TXT':
             v = args[0]
             if isinstance(v, LRef):
